@@ -316,7 +316,7 @@ func genScript(r *lib.Rng, shape int) []step {
 			case 0, 1, 2, 3, 4:
 				add(0, actDeliver)
 			case 5:
-				add(0, lib.Pick(r, actDupReq, actForge, actUnsync))
+				add(0, lib.Pick(r, actDupReq, actForge, actUnsync, actTrailRep, actTrailReq))
 			case 6:
 				add(0, actKeFail)
 			default:
@@ -424,6 +424,17 @@ func genScript(r *lib.Rng, shape int) []step {
 			add(0, lib.Pick(r, actUnsync, actUnsync, actUnsync, actDeliver))
 		}
 		add(0, actDeliver)
+	case 15: // someone on the path appends fields behind the authenticators: of replies (cookies) and of requests (placeholders)
+		add(0, actDeliver)
+		for i := int(r.Range(0, 5)); i > 0; i-- {
+			add(0, lossAct())
+		}
+		for i := int(r.Range(3, 8)); i > 0; i-- {
+			add(0, lib.Pick(r, actTrailRep, actTrailRep, actTrailReq, actDeliver))
+		}
+		for i := 0; i < 10; i++ {
+			add(0, actDeliver) // whatever got into the pool is sent by now
+		}
 	case 7: // one real timeout
 		add(0, actDeliver)
 		add(0, actTimeout)
@@ -448,11 +459,11 @@ func genHistories(r *lib.Rng, tier string) (scripts [][]step) {
 		s = append(s, step{action: actDeliver}, step{action: actDeliver}, step{action: actDeliver})
 		scripts = append(scripts, s)
 	}
-	for _, sh := range []int{8, 9, 10, 11, 11, 11, 11, 11, 11, 12, 12, 13, 13, 13, 13, 13, 13, 14, 14, 14, 14, 14} {
+	for _, sh := range []int{8, 9, 10, 11, 11, 11, 11, 11, 11, 12, 12, 13, 13, 13, 13, 13, 13, 14, 14, 14, 14, 14, 15, 15, 15, 15, 15, 15} {
 		scripts = append(scripts, genScript(r, sh))
 	}
 	for i := 0; i < n; i++ {
-		shape := lib.Pick(r, 0, 1, 1, 1, 2, 2, 3, 3, 3, 4, 4, 5, 6, 6, 8, 8, 9, 10, 10, 11, 11, 11, 12, 13, 13, 14, 14)
+		shape := lib.Pick(r, 0, 1, 1, 1, 2, 2, 3, 3, 3, 4, 4, 5, 6, 6, 8, 8, 9, 10, 10, 11, 11, 11, 12, 13, 13, 14, 14, 15, 15)
 		if i%40 == 7 {
 			shape = 7
 		}
@@ -668,7 +679,7 @@ func genSCIONHistories(r *lib.Rng, tier string) (scripts [][]step) {
 		scripts = append(scripts, s)
 	}
 	for i := 0; i < n; i++ {
-		scripts = append(scripts, genScript(r, lib.Pick(r, 0, 0, 1, 1, 2, 3, 3, 4, 5, 8, 9, 10, 10, 11, 12, 14, 14)))
+		scripts = append(scripts, genScript(r, lib.Pick(r, 0, 0, 1, 1, 2, 3, 3, 4, 5, 8, 9, 10, 10, 11, 12, 14, 14, 15, 15)))
 	}
 	return scripts
 }
